@@ -45,6 +45,7 @@ def run(tier, replay):
     nontrivial = set()
     jobs = [["seq", c.seed * 10 + i, 40 if tier == "quick" else 150] for i in range(1 if tier == "quick" else 4)]
     jobs += [["conc", c.seed * 10 + i, 4 if tier == "quick" else 12] for i in range(1 if tier == "quick" else 4)]
+    jobs += [["retain", c.seed * 10 + i, 4 if tier == "quick" else 12] for i in range(1 if tier == "quick" else 3)]     # consumers of different speed under retention
     for mode, seed, n in jobs:
         d = os.path.join(work, "%s-%d" % (mode, seed))
         os.makedirs(d)
@@ -55,7 +56,10 @@ def run(tier, replay):
         bads, lines = validate(c, d)
         for b in bads:
             e = json.loads(lines[b["l"] - 1])
-            if e["fn"] == "snext":
+            if e["fn"] == "sprefix":
+                txt = "%s: a consumer on scope %s received %d events %s%s while the engine trimmed its change log; the scope's events are %d: %s ... (a consumer may stop early only with the lost-position error, and never skips)" % (
+                    b["what"], e["scope"], len(e["delivered"]), e["delivered"][:8], " and then the lost-position error" if e["lost"] else "", len(b["exp"]), b["exp"][:8])
+            elif e["fn"] == "snext":
                 txt = "%s: TryNext on a %s stream (scope %s, start position %d, %d delivered) returned %s; change-log history %s (retained from #%d); the scope's deliveries are events %s" % (
                     b["what"], e["kind"], e["scope"], e["start"], e["k"], e["res"], [(x["db"], x["coll"], x["op"]) for x in e["log"]], e["first"], b["exp"])
             else:
@@ -66,6 +70,9 @@ def run(tier, replay):
         c.add("stream_calls_validated", summary["cases"])
         for i, line in enumerate(lines):
             e = json.loads(line)
+            if e["fn"] == "sprefix":
+                nontrivial.add(("sprefix", tuple(e["scope"]), e["lost"], len(e["delivered"]) > 0))
+                continue
             if e["fn"] == "snext":
                 nontrivial.add((e["kind"], tuple(bool(x) for x in e["scope"]), e["res"]["ok"], e["res"]["op"] if e["res"]["op"] in ("invalidate", "drop", "dropDatabase") else "", e["res"]["err"]))
                 if len(c.cov["samples"]) < 3 and e["res"]["ok"] and i % 50 == 0:
